@@ -1,5 +1,5 @@
 CONSTANTS
- SrcArrs = {1,2,3,4,5,6,7,8,9,10,11,12}
+ SrcArrs = {1,2,3,4,5,6,7,8,9,10,11,12,13,14}
  SensArrs = {1,2,4,5,8,9,10,13,14,15,17,19}
  PPs = {1,2,3,4,5}
  Fields = {"B"}
